@@ -4,6 +4,7 @@ import (
 	"fmt"
 	"go/token"
 	"go/types"
+	"sort"
 	"strings"
 
 	"golang.org/x/tools/go/ssa"
@@ -382,4 +383,92 @@ func allocOf(v ssa.Value) *ssa.Alloc {
 		}
 	}
 	return nil
+}
+
+// KEYTYPE (SEC-6, C20): the loader carries internal data in the raw model under constant keys (`#extensions`, the
+// secret value under `x-#value` inside it) and later picks it up again with a comma-ok type assertion, which
+// fails silently when the dynamic type is another one. For every constant key that package loader both writes
+// (m[K] = v with v of a concrete type) and reads back through an assertion to a concrete type, every written
+// type is one of the asserted types. A named map type stored where `map[string]any` is asserted leaves the
+// carrier key of an environment secret in the model, and the YAML rendering prints it.
+func (c *Ctx) KEYTYPE(rule string) []report.Obligation {
+	type site struct {
+		t   types.Type
+		pos string
+		fn  string
+	}
+	writers := map[string][]site{}
+	readers := map[string][]site{}
+	for _, fn := range c.P.Funcs {
+		if !strings.HasPrefix(c.P.FuncID(fn), "loader.") {
+			continue
+		}
+		for _, b := range fn.Blocks {
+			for _, in := range b.Instrs {
+				switch x := in.(type) {
+				case *ssa.MapUpdate:
+					k, isC := prog.ConstString(x.Key)
+					if !isC {
+						continue
+					}
+					if mi, isMI := x.Value.(*ssa.MakeInterface); isMI {
+						writers[k] = append(writers[k], site{mi.X.Type(), c.P.InstrPos(x), c.P.FuncID(fn)})
+					}
+				case *ssa.TypeAssert:
+					if types.IsInterface(x.AssertedType) {
+						continue
+					}
+					if lk := lookupOf(x.X, 2); lk != nil {
+						if k, isC := prog.ConstString(lk.Index); isC {
+							readers[k] = append(readers[k], site{x.AssertedType, c.P.InstrPos(x), c.P.FuncID(fn)})
+						}
+					}
+				}
+			}
+		}
+	}
+	var out []report.Obligation
+	var keys []string
+	for k := range writers {
+		if len(readers[k]) > 0 {
+			keys = append(keys, k)
+		}
+	}
+	sort.Strings(keys)
+	for _, k := range keys {
+		for _, w := range writers[k] {
+			// only container types can be mistaken for one another silently; scalars are checked where they are used
+			switch w.t.Underlying().(type) {
+			case *types.Map, *types.Slice:
+			default:
+				continue
+			}
+			match := false
+			var asserted []string
+			for _, r := range readers[k] {
+				asserted = append(asserted, c.P.TypeStr(r.t))
+				if types.Identical(w.t, r.t) {
+					match = true
+				}
+			}
+			sort.Strings(asserted)
+			out = append(out, verdict(match, rule, fmt.Sprintf("%s :: value stored under %q is of a type the readers assert", w.fn, k), w.pos,
+				"stored as "+c.P.TypeStr(w.t)+", asserted as "+strings.Join(dedup(asserted), " / "),
+				fmt.Sprintf("%s stores a %s under %q, but package loader reads that key back only through assertions to %s: the assertion fails silently and what the reader was to move or remove (the carrier of an environment secret) stays in the model", w.fn, c.P.TypeStr(w.t), k, strings.Join(dedup(asserted), " / "))))
+		}
+	}
+	if len(out) == 0 {
+		out = append(out, bad(rule, "loader :: keys written and read back", "", "no constant key is both written with a concrete container and read back by assertion: the rule sees nothing"))
+	}
+	return out
+}
+
+func dedup(xs []string) []string {
+	var out []string
+	for i, x := range xs {
+		if i == 0 || x != xs[i-1] {
+			out = append(out, x)
+		}
+	}
+	return out
 }
